@@ -8,7 +8,6 @@
 //!   (`seq`, word index), last byte = `!seq`.
 //!
 //! A buffer of zeros is never valid (fresh shared memory and `MaybeUninit` cells read as zeros).
-use iceoryx2_bb_elementary_traits::type_name::TypeName;
 use iceoryx2_bb_elementary_traits::zero_copy_send::ZeroCopySend;
 
 const K1: u64 = 0x9E37_79B9_7F4A_7C15;
@@ -189,7 +188,6 @@ macro_rules! payload_types {
             #[repr(C, align($a))]
             #[derive(Clone, Copy)]
             pub struct $name(pub [u8; $n]);
-            unsafe impl TypeName for $name {}
             unsafe impl ZeroCopySend for $name {}
             impl Payload for $name {
                 const N: usize = $n;
@@ -240,6 +238,7 @@ payload_types! {
     (V256a1, 256, 1) (V256a2, 256, 2) (V256a4, 256, 4) (V256a8, 256, 8) (V256a16, 256, 16) (V256a64, 256, 64)
     (V1024a1, 1024, 1) (V1024a2, 1024, 2) (V1024a4, 1024, 4) (V1024a8, 1024, 8) (V1024a16, 1024, 16) (V1024a64, 1024, 64)
     (V4096a1, 4096, 1) (V4096a2, 4096, 2) (V4096a4, 4096, 4) (V4096a8, 4096, 8) (V4096a16, 4096, 16) (V4096a64, 4096, 64)
+    (V16a16, 16, 16)
     (V16a8, 16, 8)
 }
 
